@@ -7,3 +7,115 @@ package subscriptions
 
 // ---- lock discipline (C20) ---------------------------------------------------------------------
 //@ guarded tree.root by mtx
+
+// ---- the subscription trie as a map from keys to data (C01, C19) -------------------------------
+// Ghost structure of a tree: every node knows its tree (the root), its parent, the key it is filed under in the parent, its
+// own key (kjoin of the parent's key and that level) and its depth. All statements about the tree are invariants over ALL
+// nodes that carry the tree's root in #tree -- no recursion over the structure is needed.
+//@ ghost field Node.tree *Node
+//@ ghost field Node.parent *Node
+//@ ghost field Node.ckey string
+//@ ghost field Node.key Key
+//@ ghost field Node.depth int
+
+//@ pred st_in(root *Node, r *Node) := r != nil && r.#tree == root
+//@ pred st_wf1(root *Node) := root != nil && root.#tree == root && root.#key == kroot() && root.#parent == nil && root.#depth == 0
+//@ pred st_wf2(root *Node) := (forall r *Node :: {r.#tree} st_in(root, r) ==> allocated(r) && allocated(r.Children) && r.#depth >= 0 && (r.#parent == nil ==> r == root))
+//@ pred st_wf3(root *Node) := (forall r *Node :: {r.#parent} st_in(root, r) && r != root ==> st_in(root, r.#parent) && r.#ckey in r.#parent.Children
+//@         && r.#parent.Children[r.#ckey] == r && r.#key == kjoin(r.#parent.#key, r.#ckey) && r.#depth == r.#parent.#depth + 1)
+//@ pred st_wf4(root *Node) := (forall r *Node, k string :: {r.Children[k]} st_in(root, r) && k in r.Children ==>
+//@         st_in(root, r.Children[k]) && r.Children[k].#parent == r && r.Children[k].#ckey == k && r.Children[k] != root)
+//@ pred st_wf5(root *Node) := (forall a *Node, b *Node :: {a.#key, b.#key} st_in(root, a) && st_in(root, b) && a.#key == b.#key ==> a == b)
+//@ pred st_wf6(root *Node) := (forall a *Node, b *Node :: {a.Children, b.Children} st_in(root, a) && st_in(root, b) && a.Children == b.Children && a.Children != nil ==> a == b)
+// memory that has not been allocated yet belongs to no tree (ghost fields of unallocated objects are zero)
+//@ pred st_wf0(root *Node) := forall r *Node :: {r.#tree} !allocated(r) ==> r.#tree == nil
+//@ pred st_wf(root *Node) := st_wf0(root) && st_wf1(root) && st_wf2(root) && st_wf3(root) && st_wf4(root) && st_wf5(root) && st_wf6(root)
+
+// the callback of an upsert: a function from the old bytes to the new ones that only allocates
+//@ assume-call (*Node).update.f(b []byte) (r []byte)
+//@   modifies newrows(b), #upsertCalls, #upsertArg, #upsertRes
+//@   ensures #upsertCalls == old(#upsertCalls) + 1 && #upsertArg == b && #upsertRes == r
+
+//@ func newNode() (n *Node)
+//@   ensures n != nil && fresh(n) && n.Children != nil && fresh(n.Children) && len(n.Data) == 0 && (forall k string :: !(k in n.Children))
+//@   ensures n.#tree == nil
+
+// a child created on the way down joins the tree under the level it was looked up with
+//@ ghost-after (*Node).update call newNode
+//@   set result.#tree := n.#tree
+//@   set result.#parent := n
+//@   set result.#ckey := token
+//@   set result.#key := kjoin(n.#key, token)
+//@   set result.#depth := n.#depth + 1
+// a child pruned on the way up leaves it
+//@ ghost-after (*Node).update delete
+//@   set child.#tree := nil
+
+// C19: an update at topic t starting from node n touches exactly the entry with key K = kext(key(n), t): f is applied once to
+// its data; every other node keeps its data; nodes disappear only if they hold nothing; new nodes other than K hold nothing.
+//@ func (*Node).update(topic format.Topic, f func([]byte) []byte)
+//@   requires n != nil && n.#tree != nil
+//@   requires st_wf0(n.#tree)
+//@   requires st_wf1(n.#tree)
+//@   requires st_wf2(n.#tree)
+//@   requires st_wf3(n.#tree)
+//@   requires st_wf4(n.#tree)
+//@   requires st_wf5(n.#tree)
+//@   requires st_wf6(n.#tree)
+//@   ensures st_wf(old(n.#tree)) && st_in(old(n.#tree), n)
+//@   ensures #upsertCalls == old(#upsertCalls) + 1
+//@   ensures forall r *Node :: {r.#tree} old(st_in(n.#tree, r)) && r.#key != kext(n.#key, string(topic), topic == nil) ==> r.Data == old(r.Data)
+//@   ensures forall r *Node :: {r.#tree} old(st_in(n.#tree, r)) && !st_in(old(n.#tree), r) ==> len(r.Data) == 0 && r != n
+//@   ensures forall r *Node :: {r.#tree} !old(st_in(n.#tree, r)) && st_in(old(n.#tree), r) ==> fresh(r) && (r.#key != kext(n.#key, string(topic), topic == nil) ==> len(r.Data) == 0)
+//@   ensures forall r *Node :: {r.#tree} st_in(old(n.#tree), r) && r.#key == kext(n.#key, string(topic), topic == nil) ==> r.Data == #upsertRes
+// ... and f was applied to what that entry held before (nothing, for an entry that did not exist)
+//@   ensures forall r *Node :: {r.#tree} old(st_in(n.#tree, r)) && r.#key == kext(n.#key, string(topic), topic == nil) ==> #upsertArg == old(r.Data)
+//@   ensures (forall r *Node :: {r.#tree} old(st_in(n.#tree, r)) ==> r.#key != kext(n.#key, string(topic), topic == nil)) ==> len(#upsertArg) == 0
+// the ghost structure and the map object of every node that was in the tree stay as they were
+//@   ensures forall r *Node :: {r.#key} {r.#parent} {r.#ckey} {r.#depth} {r.Children} old(st_in(n.#tree, r)) ==> r.#key == old(r.#key) && r.#parent == old(r.#parent) && r.#ckey == old(r.#ckey) && r.#depth == old(r.#depth) && (r.Children == old(r.Children) || (old(r.Children) == nil && fresh(r.Children)))
+//@   ensures forall r *Node :: {r.#tree} old(allocated(r)) && !old(st_in(n.#tree, r)) ==> r.#tree == old(r.#tree)
+//@   modifies allfields(n), allmaps(n.Children), newrows(topic), #upsertCalls, #upsertArg, #upsertRes
+
+// ---- matching (C01) -----------------------------------------------------------------------------
+// msub(start, K, t): walking from the node with key `start`, the node with key K is reached for the topic remainder t.
+// Transcribed from the MQTT rules: a "#" child of any node on the way matches whatever follows (INCLUDING nothing: the parent
+// level itself), "+" stands for exactly one level, any other level must be equal; at the end of the topic the node itself
+// matches. Defined by one unfolding per level.
+//@ fun msub(start Key, k Key, t string, e bool) bool
+//@ axiom msub_end: forall s Key, k Key, t string, e bool :: {msub(s, k, t, e)} e ==> (msub(s, k, t, e) <==> (k == s || k == kjoin(s, "#")))
+//@ axiom msub_step: forall s Key, k Key, t string, e bool :: {msub(s, k, t, e)} !e ==> (msub(s, k, t, e) <==>
+//@        (k == kjoin(s, "#") || msub(kjoin(s, "+"), k, lrest(t), fslash(t) < 0) || (lfirst(t) != "+" && lfirst(t) != "#" && msub(kjoin(s, lfirst(t)), k, lrest(t), fslash(t) < 0))))
+
+// every call of the iterator in walk passes the data of one node: count it for that node
+//@ ghost-after (*Node).walk callparam iterator
+//@   set #hits := update(#hits, arg0_owner, #hits[arg0_owner] + 1)
+//@ assume-call (*Node).walk.iterator(b []byte)
+//@   modifies #iterCalls
+//@   ensures #iterCalls == old(#iterCalls) + 1
+
+// C01 (soundness): walk reports only nodes of this tree whose key matches the topic, each time with that node's data
+//@ func (*Node).walk(topic format.Topic, iterator NodeIterator)
+//@   requires this != nil && this.#tree != nil && st_wf(this.#tree)
+//@   ensures forall r *Node :: {#hits[r]} #hits[r] >= old(#hits)[r]
+//@   ensures forall r *Node :: {#hits[r]} #hits[r] > old(#hits)[r] ==> st_in(this.#tree, r) && msub(this.#key, r.#key, string(topic), topic == nil)
+// C01 (completeness, one level at a time): at the end of the topic the node itself and its "#" child are reported; otherwise
+// the "#" child is reported and the walk continues in the "+" child and in the child named like the level. Together with the
+// same clauses for the children this is completeness for the whole tree (induction on the depth, not mechanised).
+//@   ensures topic == nil ==> #hits[this] >= old(#hits)[this] + 1
+//@   ensures topic == nil && "#" in this.Children ==> #hits[this.Children["#"]] >= old(#hits)[this.Children["#"]] + 1
+//@   ensures topic != nil && "#" in this.Children ==> #hits[this.Children["#"]] >= old(#hits)[this.Children["#"]] + 1
+//@   ensures topic != nil && "+" in this.Children ==> #walked[this.Children["+"]] >= old(#walked)[this.Children["+"]] + 1
+//@   ensures topic != nil && lfirst(string(topic)) != "#" && lfirst(string(topic)) in this.Children
+//@             ==> #walked[this.Children[lfirst(string(topic))]] >= old(#walked)[this.Children[lfirst(string(topic))]] + 1
+//@   ensures forall r *Node :: {#walked[r]} #walked[r] >= old(#walked)[r]
+//@   modifies #hits, #iterCalls, #walked
+//@ ghost-after (*Node).walk call (*Node).walk
+//@   set #walked := update(#walked, n, #walked[n] + 1)
+//@ loop (*Node).walk#1
+//@   invariant forall r *Node :: {#walked[r]} #walked[r] >= old(#walked)[r]
+//@   invariant forall kk string :: {seen(kk)} seen(kk) && kk == "#" ==> #hits[this.Children[kk]] >= old(#hits)[this.Children[kk]] + 1
+//@   invariant forall kk string :: {seen(kk)} seen(kk) && kk != "#" && (kk == "+" || kk == token) ==> #walked[this.Children[kk]] >= old(#walked)[this.Children[kk]] + 1
+//@   invariant token == lfirst(string(old(topic))) && old(topic) != nil
+//@   invariant this != nil && this.#tree != nil && st_wf(this.#tree)
+//@   invariant forall r *Node :: {#hits[r]} #hits[r] >= old(#hits)[r]
+//@   invariant forall r *Node :: {#hits[r]} #hits[r] > old(#hits)[r] ==> st_in(this.#tree, r) && msub(this.#key, r.#key, string(old(topic)), false)
